@@ -1,18 +1,23 @@
 """Lock-acquisition shape of every storage-trait method of both backends (DESIGN §6 C19).
 
-For each method: the sequence of lock sections it executes, in textual order, following calls to
-other `self.` methods (two levels deep), and whether any lock is acquired (directly or through a
-called method) while another one is still held (`nested`).
+For each method: the sequence of lock SECTIONS it executes, in textual order, following calls to
+other `self.` methods (up to three levels deep).  There is one section per lock ACQUISITION; a
+section names the locks held at that moment in the order they were acquired (outermost first) with
+the newly acquired lock last.  `[[(1,1)], [(0,1)]]` is two separate sections (the first lock is
+released before the second is taken); `[[(1,1)], [(1,1),(0,1)]]` is a nested section (the second
+lock is taken while the first is held).  A method called while locks H are held contributes
+H + s for each of its own sections s.  `nested` = some section holds more than one lock.
 
   memory : `self.inner.read()/write()`, `self.group_snapshots.read()/write()`
            - `let g = self.<lock>.<mode>();`  is a guard held to the end of the enclosing block
+             (or to `drop(g)`)
            - any other occurrence is a temporary released at the end of its statement
-  sqlite : `self.with_connection(|conn| …)` (section = the closure) and
+  sqlite : `self.with_connection(|conn| …)` (held to the end of the closure) and
            `let conn = self.connection.lock().unwrap();` (guard held to the end of the block)
 
 Locks: 0 = memory `inner`, 1 = memory `group_snapshots`, 2 = sqlite `connection`.
 Modes: 0 = shared (read), 1 = exclusive (write / mutex).
-Emits `lockShape : List (Nat × Nat × String × List (Nat × Nat) × Bool)` with entries
+Emits `lockShape : List (Nat × Nat × String × List (List (Nat × Nat)) × Bool)` with entries
 (backend 0=mem 1=sql, method number, rust name, sections, nested).  The numbering of the MDK trait
 methods is fixed (METHODS); OpenMLS `StorageProvider` methods get 100 + alphabetical index;
 write_tree / tree / delete_tree additionally 90 / 91 / 92 (the store model's mls_write / mls_read / mls_delete)."""
@@ -100,17 +105,31 @@ class Analyzer:
         self.cache = {}
 
     def analyze(self, name, depth=0):
-        """(sections [(lock, mode)], nested)"""
+        """sections of `name` when called with no lock held: [[(lock, mode), …], …] — one entry per
+        ACQUISITION, listing the locks held at that moment in acquisition order (outermost first),
+        the acquired one last.  A method called while locks H are held contributes H + its sections."""
         if name in self.cache:
             return self.cache[name]
         if depth > 3:
             raise self.missing(f"lockShape:recursion:{name}")
         body = self.fns[name]
-        secs, nested = [], False
-        held = []          # [(var, brace depth at binding)] guards currently alive
-        temp_until = -1    # a temporary guard is alive up to this index
+        secs = []
+        held = []          # [(var, brace depth at binding, (lock, mode))] guards currently alive, in acquisition order
+        temps = []         # [(alive up to this index, (lock, mode))] temporaries (and with_connection closures)
         i, depth_b = 0, 0
         n = len(body)
+
+        def end_of_statement(j):
+            d = 0
+            while j < n:
+                if body[j] in "({[": d += 1
+                elif body[j] in ")}]":
+                    d -= 1
+                    if d < 0: break
+                elif body[j] == ";" and d == 0: break
+                j += 1
+            return j
+
         while i < n:
             c = body[i]
             if c == '"':
@@ -122,73 +141,59 @@ class Analyzer:
                 depth_b += 1; i += 1; continue
             if c == "}":
                 depth_b -= 1
-                held = [(v, d) for v, d in held if d <= depth_b]
+                held = [h for h in held if h[1] <= depth_b]
                 i += 1; continue
-            holding = bool(held) or i < temp_until
+            temps = [t for t in temps if i < t[0]]
+            stack = [h[2] for h in held] + [t[1] for t in temps]
             m = GUARD_MEM.match(body, i) or GUARD_SQL.match(body, i)
             if m:
-                if holding: nested = True
-                if m.re is GUARD_MEM:
-                    secs.append((LOCKS[m.group(2)], 0 if m.group(3) == "read" else 1))
-                else:
-                    secs.append((LOCKS["connection"], 1))
-                held.append((m.group(1), depth_b))
+                lk = (LOCKS[m.group(2)], 0 if m.group(3) == "read" else 1) if m.re is GUARD_MEM else (LOCKS["connection"], 1)
+                secs.append(stack + [lk])
+                held.append((m.group(1), depth_b, lk))
                 i = m.end(); continue
             m = DROP.match(body, i)
             if m and (i == 0 or not (body[i - 1].isalnum() or body[i - 1] == "_")):
-                held = [(v, d) for v, d in held if v != m.group(1)]
+                held = [h for h in held if h[0] != m.group(1)]
                 i = m.end(); continue
             m = WITH_CONN.match(body, i)
             if m:
-                if holding: nested = True
-                secs.append((LOCKS["connection"], 1))
+                # the closure runs with the connection mutex held; what it acquires is found by the scan below
+                lk = (LOCKS["connection"], 1)
+                secs.append(stack + [lk])
                 close = match_close(body, m.end() - 1, "(", ")")
-                inner = body[m.end():close]
-                # anything that takes the lock again inside the closure is a nested acquisition
-                if TEMP_SQL.search(inner) or WITH_CONN.search(inner):
-                    nested = True
-                for cm in CALL.finditer(inner):
-                    if cm.group(1) in self.fns:
-                        s2, _ = self.analyze(cm.group(1), depth + 1)
-                        if s2:
-                            nested = True
-                    elif cm.group(1) not in IGNORED_CALLS:
-                        raise self.missing(f"lockShape:unknown-self-call:{name}:{cm.group(1)}")
-                i = close + 1; continue
+                temps.append((close, lk))
+                i = m.end(); continue
             m = TEMP_MEM.match(body, i) or TEMP_SQL.match(body, i)
             if m:
-                if holding: nested = True
-                if m.re is TEMP_MEM:
-                    secs.append((LOCKS[m.group(1)], 0 if m.group(2) == "read" else 1))
-                else:
-                    secs.append((LOCKS["connection"], 1))
+                lk = (LOCKS[m.group(1)], 0 if m.group(2) == "read" else 1) if m.re is TEMP_MEM else (LOCKS["connection"], 1)
+                secs.append(stack + [lk])
                 # alive to the end of the statement
-                j, d = m.end(), 0
-                while j < n:
-                    if body[j] in "({[": d += 1
-                    elif body[j] in ")}]":
-                        d -= 1
-                        if d < 0: break
-                    elif body[j] == ";" and d == 0: break
-                    j += 1
-                temp_until = j
+                temps.append((end_of_statement(m.end()), lk))
                 i = m.end(); continue
             m = CALL.match(body, i)
             if m and (i == 0 or not (body[i - 1].isalnum() or body[i - 1] in "_.")):
                 callee = m.group(1)
                 if callee in self.fns:
-                    s2, n2 = self.analyze(callee, depth + 1)
-                    if s2 and holding: nested = True
-                    nested = nested or n2
-                    secs += s2
+                    secs += [stack + s for s in self.analyze(callee, depth + 1)]
                 elif callee in ("inner", "group_snapshots", "connection", "with_connection") or callee in IGNORED_CALLS:
                     pass
                 else:
                     raise self.missing(f"lockShape:unknown-self-call:{name}:{callee}")
                 i = m.end(); continue
             i += 1
-        self.cache[name] = (secs, nested)
-        return self.cache[name]
+        self.cache[name] = secs
+        return secs
+
+def lean_sections(secs):
+    return "[" + ", ".join("[" + ", ".join("(%d, %d)" % l for l in s) + "]" for s in secs) + "]"
+
+def parse_sections(shape_text, backend, method):
+    """the sections of (backend, method) from the text of the generated fact `lockShape`:
+    [[(lock, mode), …], …] or None"""
+    m = re.search(r'\(%d, %d, "[^"]*", \[((?:\[[^\]]*\](?:, )?)*)\], (?:true|false)\)' % (backend, method), shape_text)
+    if not m:
+        return None
+    return [[(int(a), int(b)) for a, b in re.findall(r"\((\d+), (\d+)\)", sec)] for sec in re.findall(r"\[([^\]]*)\]", m.group(1))]
 
 def extract(read, strip_comments, non_test, Missing):
     out = []
@@ -215,8 +220,8 @@ def extract(read, strip_comments, non_test, Missing):
         for idx, name in enumerate(METHODS):
             if name not in trait_fns:
                 raise Missing(f"lockShape:method:{struct}:{name}")
-            secs, nested = an.analyze(name)
-            out.append((be, idx, name, secs, nested))
+            secs = an.analyze(name)
+            out.append((be, idx, name, secs, any(len(x) > 1 for x in secs)))
         if not provider:
             raise Missing(f"lockShape:StorageProvider:{struct}")
         names = sorted(provider)
@@ -225,23 +230,23 @@ def extract(read, strip_comments, non_test, Missing):
         elif provider_names != names:
             raise Missing("lockShape:StorageProvider:method-sets-differ")
         for k, name in enumerate(names):
-            secs, nested = an.analyze(name)
-            out.append((be, 100 + k, name, secs, nested))
+            secs = an.analyze(name)
+            out.append((be, 100 + k, name, secs, any(len(x) > 1 for x in secs)))
         # fixed numbers for the three kinds of OpenMLS rows the store model's mls ops stand for
         for name, num in PROVIDER_REPR:
             if name not in provider:
                 raise Missing(f"lockShape:StorageProvider:{struct}:{name}")
-            secs, nested = an.analyze(name)
-            out.append((be, num, name, secs, nested))
+            secs = an.analyze(name)
+            out.append((be, num, name, secs, any(len(x) > 1 for x in secs)))
         summary[struct] = {"methods": len(METHODS) + len(names),
                            "multi_section": sorted(n for b, _, n, s, _ in out if b == be and len(s) > 1),
                            "nested": sorted(n for b, _, n, _, x in out if b == be and x)}
     def lean_entry(e):
         be, idx, name, secs, nested = e
-        return "(%d, %d, \"%s\", [%s], %s)" % (be, idx, name, ", ".join("(%d, %d)" % s for s in secs), "true" if nested else "false")
+        return "(%d, %d, \"%s\", %s, %s)" % (be, idx, name, lean_sections(secs), "true" if nested else "false")
     value = "[\n  " + ",\n  ".join(lean_entry(e) for e in out) + "]"
-    return {"lockShape": ("List (Nat × Nat × String × List (Nat × Nat) × Bool)", value,
-                          "lock sections of every storage-trait method (tools/lockshape.py): (backend 0=mem 1=sql, method, name, [(lock 0=inner 1=group_snapshots 2=connection, mode 0=shared 1=exclusive)], nested)")}, summary
+    return {"lockShape": ("List (Nat × Nat × String × List (List (Nat × Nat)) × Bool)", value,
+                          "lock sections of every storage-trait method (tools/lockshape.py): (backend 0=mem 1=sql, method, name, sections, nested); one section per lock ACQUISITION = the locks held at that moment in acquisition order, the acquired one last; lock = (0=inner 1=group_snapshots 2=connection, mode 0=shared 1=exclusive); nested = some section holds more than one lock")}, summary
 
 if __name__ == "__main__":
     import sys, os, json
